@@ -66,6 +66,25 @@ def _run_cvc5(smt2: str, timeout_ms: int, strings=True):
 
 def discharge(ob: Obligation, use_cvc5=True, z3_timeout=None, cvc5_timeout=None) -> Obligation:
     t0 = time.time()
+    if not ob.expect_sat and z3.is_false(z3.simplify(ob.goal)):
+        # the clause evaluated to False on this path (trace predicates, undeclared exceptions): it fails unless the
+        # path itself is infeasible; "unknown" feasibility counts as feasible (the executor reached the point)
+        s0 = z3.Solver()
+        s0.set("timeout", 5000)
+        for c in ob.pc:
+            s0.add(c)
+        r0 = s0.check()
+        ob.backend = "z3"
+        if r0 == z3.unsat:
+            ob.status = "discharged"
+        else:
+            ob.status = "failed"
+            ob.detail = (ob.detail + " | " if ob.detail else "") + "clause is False on a reachable path" + ("" if r0 == z3.sat else " (path feasibility: unknown)")
+            if r0 == z3.sat:
+                ob.model = s0.model()
+                ob.model_text = _model_text(ob.model)
+        ob.time_s = time.time() - t0
+        return ob
     s = z3.Solver()
     s.set("timeout", z3_timeout or Z3_TIMEOUT_MS)
     for c in ob.pc:
@@ -100,6 +119,23 @@ def discharge(ob: Obligation, use_cvc5=True, z3_timeout=None, cvc5_timeout=None)
                 ob.detail += " | cvc5: " + verdict
             else:
                 ob.detail += " | cvc5: unknown"
+        if ob.status == "unknown" and not ob.expect_sat:
+            # last resort before giving up (verdicts must not flip when the machine is busy): longer budget, other seed
+            s2 = z3.Solver()
+            s2.set("timeout", 3 * (z3_timeout or Z3_TIMEOUT_MS))
+            s2.set("random_seed", 7)
+            for c in ob.pc:
+                s2.add(c)
+            s2.add(z3.Not(ob.goal))
+            r2 = s2.check()
+            if r2 == z3.unsat:
+                ob.status, ob.backend = "discharged", "z3 (retry)"
+            elif r2 == z3.sat:
+                ob.status, ob.backend = "failed", "z3 (retry)"
+                ob.model = s2.model()
+                ob.model_text = _model_text(ob.model)
+            else:
+                ob.detail += " | z3 retry: " + s2.reason_unknown()
     ob.time_s = time.time() - t0
     return ob
 
